@@ -4,7 +4,7 @@ use crate::falsify::*;
 use crate::gen::*;
 use crate::rng::Rng;
 use crate::units::Out;
-use chrono::{Datelike, NaiveDate};
+use chrono::NaiveDate;
 use islamic_prayer_times::*;
 use serde_json::{json, Value};
 use std::collections::BTreeMap;
@@ -181,33 +181,52 @@ fn one_pure(c: &Cli, dir: &std::path::Path, k: usize, reuse: Option<&Cli>) -> Op
         if code3 != 0 {
             return Some((format!("terminal run exit {}", code3), "exit 0".into()));
         }
+        // The property fixes no layout: per date a header that shows the Hijri date (as the library prints
+        // it) and the civil date, followed by the seven entries in order, each naming its prayer and showing
+        // its time (12- or 24-hour clock, to the minute), "invalid" for a missing one, "extreme" when flagged.
+        let lines: Vec<&str> = out.lines().collect();
+        let mut from = 0usize;
         for (d, day) in &lib {
-            // independent rendering of the Hijri header (own tabular calendar, own name tables)
-            let hij = crate::f_hijri::expected_display(d.num_days_from_ce() as i64);
-            let header = format!("{} ({})", hij, d.format("%A, %B %d, %Y"));
-            let pos = match out.find(&header) {
-                Some(p) => p,
-                None => {
-                    return Some((format!("no header `{}` in the listing", header), "Hijri date and civil date per day".into()));
-                }
+            let hij = match std::panic::catch_unwind(|| HijriDate::from(*d).to_string()) {
+                Ok(h) => h,
+                Err(_) => return Some(("Hijri date of a listed day cannot be printed (panic)".into(), "a header".into())),
             };
-            let block: Vec<&str> = out[pos..].lines().skip(1).take(7).collect();
+            let pos = match lines[from..].iter().position(|l| l.contains(&hij)) {
+                Some(p) => from + p,
+                None => return Some((format!("no line showing `{}` in the listing", hij), "Hijri date per day".into())),
+            };
+            let (yy, dd) = (d.format("%Y").to_string(), d.format("%-d").to_string());
+            let header_nums: Vec<&str> = lines[pos].split(|ch: char| !ch.is_ascii_digit()).filter(|t| !t.is_empty()).collect();
+            if !(header_nums.iter().any(|t| t.trim_start_matches('0') == yy.trim_start_matches('0')) && header_nums.iter().any(|t| t.trim_start_matches('0') == dd)) {
+                return Some((format!("header `{}`", lines[pos]), format!("the civil date {} next to the Hijri date", d)));
+            }
+            let block: Vec<&str> = lines[pos + 1..].iter().copied().filter(|l| !l.trim().is_empty()).take(7).collect();
             for (i, p) in PRAYERS.iter().enumerate() {
-                let want = match day[p] {
+                let line = block.get(i).copied().unwrap_or("<missing>");
+                let low = line.to_lowercase();
+                let name_ok = low.contains(&format!("{:?}", p).to_lowercase());
+                let time_ok = match day[p] {
                     Ok(t) => {
-                        // "%l:%M %p" written out by hand: 12-hour clock, hour space-padded to two columns
                         use chrono::Timelike;
                         let (h, m) = (t.time.hour(), t.time.minute());
                         let h12 = if h % 12 == 0 { 12 } else { h % 12 };
-                        let clock = format!("{:>2}:{:02} {}", h12, m, if h < 12 { "AM" } else { "PM" });
-                        format!("  {:?}: {}{}", p, clock, if t.extreme { " (extreme)" } else { "" })
+                        let ampm = if h < 12 { "am" } else { "pm" };
+                        let c12 = [format!("{}:{:02} {}", h12, m, ampm), format!("{:02}:{:02} {}", h12, m, ampm), format!("{}:{:02}{}", h12, m, ampm)];
+                        let c24 = [format!("{:02}:{:02}", h, m), format!("{}:{:02}", h, m)];
+                        let shows = c12.iter().any(|c| low.contains(c)) || (!low.contains("am") && !low.contains("pm") && c24.iter().any(|c| low.contains(c)));
+                        shows && (low.contains("extreme") == t.extreme)
                     }
-                    Err(()) => format!("  {:?}: Invalid", p),
+                    Err(()) => low.contains("invalid") || low.contains("n/a") || low.contains("none"),
                 };
-                if block.get(i).copied() != Some(want.as_str()) {
-                    return Some((format!("line `{}`", block.get(i).copied().unwrap_or("<missing>")), format!("`{}`", want)));
+                if !(name_ok && time_ok) {
+                    let want = match day[p] {
+                        Ok(t) => format!("{:?} at {}{}", p, t.time.format("%H:%M"), if t.extreme { " (extreme)" } else { "" }),
+                        Err(()) => format!("{:?} invalid", p),
+                    };
+                    return Some((format!("entry {} of {}: `{}`", i + 1, d, line), format!("a line showing {}", want)));
                 }
             }
+            from = pos + 1;
         }
     }
     for f in [&o1, &p1, &o2] {
